@@ -50,12 +50,13 @@ def rows_coq(rows):
 
 
 def hcase_coq(c):
-    """write-endpoint case: (factor, max-body-size, Content-Length, gzip, decoded body, acknowledged, stored rows)"""
+    """write-endpoint case: (factor, max-body-size, Content-Length, gzip, stream breaks off, decoded body, acknowledged, stored rows)"""
     h = c["http"]
     lim = "None" if not h["limit"] else "(Some %d)" % h["limit"]
     dec = "None" if h["declared"] < 0 else "(Some %d)" % h["declared"]
     gz = "true" if h["kind"].startswith("gzip") else "false"
-    return "(%s, %s, %s, %s, %s, %s, %s)" % (zz(c["mult"]), lim, dec, gz, zl(c["in"]), "false" if c["err"] else "true", rows_coq(c["rows"]))
+    broken = "true" if h["kind"] in ("chunked-abort", "gzip-broken") else "false"
+    return "(%s, %s, %s, %s, %s, %s, %s, %s)" % (zz(c["mult"]), lim, dec, gz, broken, zl(c["in"]), "false" if c["err"] else "true", rows_coq(c["rows"]))
 
 
 def scase_coq(c):
@@ -78,7 +79,7 @@ def eval_model(ck, cases, shard=150):
     files = []
     groups = []          # per file: (kind, [global indices])
     plain = [i for i, c in enumerate(cases) if not c.get("http")]
-    http = [i for i, c in enumerate(cases) if c.get("http")]
+    http = [i for i, c in enumerate(cases) if c.get("http") and c["http"]["status"] != -1]   # -1: no answer read (transport), counted below
     stream = [i for i, c in enumerate(cases) if c.get("stream")]
     for kind, idxs, typ, fn, conv, sh in (("p", plain, "icase", "codes", case_coq, shard), ("h", http, "hcase", "hcodes", hcase_coq, 12),
                                           ("s", stream, "scase", "scodes", scase_coq, 40)):
@@ -144,8 +145,8 @@ def judge(ck, cases, codes, stats):
             if oids:
                 ids = set(oids)
             else:
-                ck.broken.append("correspondence C06: no configuration of the model reproduces the implementation on case %d (%r)"
-                                 % (c["i"], c["text"][:120]))
+                ck.broken.append("correspondence C06: no configuration of the model reproduces the implementation on case %d (%s%r)"
+                                 % (c["i"], ("write endpoint %s, answered %s: " % (c["http"]["kind"], c["http"]["status"])) if c.get("http") else "", c["text"][:120]))
                 if not getattr(ck, "nofail_detail", None):
                     ck.nofail_detail = dict(replay, kind="correspondence")
                 continue
@@ -184,7 +185,7 @@ def run_e2e(ck, binp, stats):
     os.makedirs(wd, exist_ok=True)
     tmpl = os.path.join(ck.repo, "config", "openGemini.singlenode.conf")
     rc, out = ck.run([binp, "e2e", server, tmpl, wd, str(n)], timeout=1500)
-    cases = [json.loads(l) for l in out.splitlines() if l.startswith('{"e2e"')]
+    cases = [json.loads(l) for l in out.split("\n") if l.startswith('{"e2e"')]
     done = re.search(r'\{"e2e_done":(\d+)\}', out)
     if rc != 0 or not done or int(done.group(1)) != len(cases) or len(cases) < n:
         ck.broken.append("harness c06 e2e failed rc=%d cases=%d: %s" % (rc, len(cases), out[-600:]))
@@ -245,7 +246,7 @@ def main(ck):
         return replay(ck, binp, ok)
     n = 900 if ck.tier == "quick" else 20000
     rc, out = ck.run([binp, "gen", str(n), os.path.join(ck.verif, "corpus", PID)], timeout=1500)
-    cases = [json.loads(l) for l in out.splitlines() if l.startswith('{"i"')]
+    cases = [json.loads(l) for l in out.split("\n") if l.startswith('{"i"')]
     done = re.search(r'\{"done":(\d+)\}', out)
     if rc != 0 or not done or int(done.group(1)) != len(cases) or len(cases) < n:
         ck.broken.append("harness c06 failed rc=%d cases=%d: %s" % (rc, len(cases), out[-600:]))
@@ -290,6 +291,10 @@ def main(ck):
         hc = [c for c in cases if c.get("http")]
         hack = sum(1 for c in hc if not c["err"])
         ck.cov["http_requests"] = len(hc)
+        noans = sum(1 for c in hc if c["http"]["status"] == -1 and c["http"]["kind"] != "chunked-abort")
+        ck.cov["http_requests_without_answer"] = noans
+        if noans * 10 > len(hc):
+            ck.broken.append("harness c06: %d of %d requests to the in-process write endpoint got no answer" % (noans, len(hc)))
         ck.cov["http_requests_acknowledged"] = hack
         ck.cov["http_valid_requests_refused"] = sum(1 for c in hc if "valid-refused" in (c.get("sub") or ""))
         ck.cov["http_streamed_bodies_over_limit"] = sum(1 for c in hc if c["http"]["stream"] and c["http"]["limit"] and c["http"]["kind"] == "chunked" and len(c["in"]) // 2 > c["http"]["limit"])
@@ -341,7 +346,7 @@ def replay(ck, binp, ok):
     src = os.path.join(ck.work, "replay_in.json")
     json.dump({"in": rp["in"], "mult": rp.get("mult", 1)}, open(src, "w"))
     rc, out = ck.run([binp, "replay", src], timeout=300)
-    cases = [json.loads(l) for l in out.splitlines() if l.startswith('{"i"')]
+    cases = [json.loads(l) for l in out.split("\n") if l.startswith('{"i"')]
     if rc != 0 or len(cases) != 1:
         ck.broken.append("harness c06 replay failed rc=%d: %s" % (rc, out[-400:]))
         return
